@@ -256,9 +256,12 @@ package auth
 //@   frame none
 //@   ensures {C17} [hit-is-the-cached-account] ret1 ==> in(k, i.items) && ret0 == i.items[k].value
 
-// the admin-facing operations: after an acknowledged call the cache agrees with it, in every field
+// the admin-facing operations: after an acknowledged call the cache agrees with it, in every field.
+// The key an entry is stored under is a string the cache made itself (ownedstr): the gateway runs fiber without
+// Immutable, so a string taken from the request is a view of a buffer that the next request overwrites.
 //@ func (*IAMCache) CreateAccount
 //@   requires {C17} [well-formed] c.iamcache != nil && c.iamcache.items != nil
+//@   at-call auth.icache.set {C17} [cache-key-outlives-the-request] requires ownedstr($1)
 //@   ensures {C17} [cached-with-all-attributes] err == nil ==> in(account.Access, c.iamcache.items) && c.iamcache.items[account.Access].value == account
 //@ func (*IAMCache) DeleteUserAccount
 //@   requires {C17} [well-formed] c.iamcache != nil && c.iamcache.items != nil
@@ -272,6 +275,7 @@ package auth
 //@   ensures {C17} [update-does-not-resurrect] err == nil && !old(in(access, c.iamcache.items)) ==> !in(access, c.iamcache.items)
 //@ func (*IAMCache) GetUserAccount
 //@   requires {C17} [well-formed] c.iamcache != nil && c.iamcache.items != nil
+//@   at-call auth.icache.set {C17} [cache-key-outlives-the-request] requires ownedstr($1)
 //@   ensures {C17} [miss-caches-the-service-answer] err == nil ==> in(access, c.iamcache.items) && (ret0 == c.iamcache.items[access].value)
 
 // ---- C17: the file-backed account store never writes anything but what it read, unless the update succeeded ----
